@@ -110,6 +110,9 @@ def extra_programs(n: grammar.Names) -> list[dict[str, Any]]:
         "inc": "[{{ a }}{{ it }}{% assign made = g | append: 'x' %}{% for i in arr %}{{ i | json }}{% endfor %}]",
         "rex": "{% extends 'rbase' %}{% block rb %}{{ it }}{{ block.super }}{% endblock %}",
         "rbase": "[{{ a }}{% block rb %}{{ made }}{% endblock %}]",
+        "rex2": "{% extends 'rbase' %}{% block rb %}{{ block.super }}{{ g }}{% endblock %}",
+        # partial names with one, two and three dots: the implicit `with` / `for` name is the part before the FIRST dot
+        "card.liquid": "{{ card.k }}{{ card | json }}", "card.compact.liquid": "{{ card.k }}{{ card | json }}", "line.item.v2.html": "{{ line.k }}{{ line | json }}{{ item }}",
     }
     progs = [
         "{% extends 'mid' %}{% block c %}L{{ arr | size }}{{ block.super }}{% endblock %}",
@@ -138,6 +141,14 @@ def extra_programs(n: grammar.Names) -> list[dict[str, Any]]:
         # a chain rendered in an isolated scope: its templates do not see the names the root template binds
         "{% assign a = 1 %}{% assign it = 2 %}{% capture made %}m{% endcapture %}{% render 'rex' %}",
         "{% for a in arr %}{% render 'rex', it: a %}{% endfor %}{% assign made = 1 %}{% render 'rex' %}",
+        # the same chain rendered twice with different argument sets (both orders), and two chains over one base
+        *["{% render 'rex', " + nm + ": 1 %}{% render 'rex' %}" for nm in ("a", "made", "it")],
+        *["{% render 'rex' %}{% render 'rex', " + nm + ": 1 %}" for nm in ("a", "made", "it")],
+        "{% render 'rex', a: 1, made: 2 %}{% render 'rex2', made: 3 %}{% render 'rex2' %}{% render 'rex', it: 4 %}", "{% render 'rex2', a: 1 %}{% render 'rex', made: 1 %}{% render 'rex2', g: 1 %}{% render 'rex2' %}",
+        # implicit names of partials whose file name has several dots
+        "{% include 'card.liquid' with h %}{% include 'card.compact.liquid' with h %}{% include 'line.item.v2.html' with h %}",
+        "{% include 'card.compact.liquid' for arr %}{% include 'line.item.v2.html' for arr %}{% render 'card.compact.liquid' with h %}{% render 'line.item.v2.html' for arr %}",
+        "{% include 'card.compact.liquid' with h as it %}{% include 'line.item.v2.html', line: g %}",
         # arguments of filters on the LEFT of an inline condition
         "{{ g | plus: a if h else g }}{{ arr | map: r => r[it] | join: unbound if h }}{{ g | append: \"${ made | upcase }\" if h.a else 'n' }}",
         "{% assign q = arr | where: 'k', a | size if h else 0 %}{{ q }}{% echo g | default: it if false else g | default: made %}",
